@@ -454,9 +454,103 @@ def run_real(res, path):
     res.sample(case)
 
 
+# ----------------------------------------------------------------------------------------
+# (e) DOMs reached by accepted edits: every history of edits up to a depth, each judged by the same round trip
+
+EDIT_BASE = ('@namespace p "u";\n/*c*/\n@import "i.css" print;\n@media print{a{color:blue ! IMPORTANT;top:0}}\n'
+             'a,p|b{color:blue !important;margin:0 1px;left:1px}\n@page :first{margin:1cm;@top-left{color:red !important}}\n@font-face{font-family:x}')
+
+
+def _st(sheet, which):
+    R = cssutils.css.CSSRule
+    if which == 'style':
+        return [r for r in sheet.cssRules if r.type == R.STYLE_RULE][0].style
+    if which == 'media':
+        return [r for r in sheet.cssRules if r.type == R.MEDIA_RULE][0].cssRules[0].style
+    if which == 'page':
+        return [r for r in sheet.cssRules if r.type == R.PAGE_RULE][0].style
+    return [r for r in sheet.cssRules if r.type == R.PAGE_RULE][0].cssRules[0].style  # margin box
+
+
+def _first(sheet, typ):
+    return [r for r in sheet.cssRules if r.type == typ][0]
+
+
+_R = cssutils.css.CSSRule
+EDITS = {}
+for _w in ('style', 'media', 'page', 'box'):
+    EDITS.update({
+        f'{_w}.setProperty(color,red)': (lambda s, w=_w: _st(s, w).setProperty('color', 'red')),
+        f'{_w}.setProperty(color,red,important)': (lambda s, w=_w: _st(s, w).setProperty('color', 'red', 'important')),
+        f'{_w}.color.priority=empty': (lambda s, w=_w: setattr(_st(s, w).getProperty('color'), 'priority', '')),
+        f'{_w}.color.priority=None': (lambda s, w=_w: setattr(_st(s, w).getProperty('color'), 'priority', None)),
+        f'{_w}.color.priority=important': (lambda s, w=_w: setattr(_st(s, w).getProperty('color'), 'priority', 'important')),
+        f'{_w}.color.value=green': (lambda s, w=_w: setattr(_st(s, w).getProperty('color'), 'value', 'green')),
+        f'{_w}.removeProperty(color)': (lambda s, w=_w: _st(s, w).removeProperty('color')),
+        f'{_w}.cssText=': (lambda s, w=_w: setattr(_st(s, w), 'cssText', 'color:#fff!important;x:"a\\"b"')),
+    })
+EDITS.update({
+    'style.setProperty(Property)': lambda s: _st(s, 'style').setProperty(cssutils.css.Property('color', 'lime')),
+    'style[margin]=': lambda s: _st(s, 'style').__setitem__('margin', '2px'),
+    'style.margin.name=padding': lambda s: setattr(_st(s, 'style').getProperty('margin'), 'name', 'padding'),
+    'style.margin.value[0]=': lambda s: setattr(_st(s, 'style').getProperty('margin').propertyValue[0], 'cssText', '3em'),
+    'style.margin.propertyValue.cssText=': lambda s: setattr(_st(s, 'style').getProperty('margin').propertyValue, 'cssText', '1px 2px 3px'),
+    'selectorText=c': lambda s: setattr(_first(s, _R.STYLE_RULE), 'selectorText', 'c'),
+    'selectorText=p|c,d': lambda s: setattr(_first(s, _R.STYLE_RULE), 'selectorText', 'p|c , d>e'),
+    'selectorList.append': lambda s: _first(s, _R.STYLE_RULE).selectorList.appendSelector('p|z[p|y]'),
+    'selector[0].selectorText=': lambda s: setattr(_first(s, _R.STYLE_RULE).selectorList[0], 'selectorText', '*|q'),
+    'media.appendMedium(tv)': lambda s: _first(s, _R.MEDIA_RULE).media.appendMedium('tv'),
+    'media.deleteMedium(print)': lambda s: _first(s, _R.MEDIA_RULE).media.deleteMedium('print'),
+    'media.mediaText=': lambda s: setattr(_first(s, _R.MEDIA_RULE).media, 'mediaText', 'tv, screen and (color)'),
+    'import.media.mediaText=': lambda s: setattr(_first(s, _R.IMPORT_RULE).media, 'mediaText', 'all'),
+    'import.href=': lambda s: setattr(_first(s, _R.IMPORT_RULE), 'href', 'j k.css'),
+    'page.selectorText=': lambda s: setattr(_first(s, _R.PAGE_RULE), 'selectorText', 'n:left'),
+    'namespaces[q]=u': lambda s: s.namespaces.__setitem__('q', 'u'),
+    'namespace.prefix=r': lambda s: setattr(_first(s, _R.NAMESPACE_RULE), 'prefix', 'r'),
+    'deleteRule(style)': lambda s: s.deleteRule(_first(s, _R.STYLE_RULE)),
+    'media.deleteRule(0)': lambda s: _first(s, _R.MEDIA_RULE).deleteRule(0),
+    'media.insertRule': lambda s: _first(s, _R.MEDIA_RULE).insertRule('p|m{x:y !important}', 0),
+    'insertRule(comment)': lambda s: s.add(cssutils.css.CSSComment('/*late*/')),
+    'add(style)': lambda s: s.add('p|n{color:blue !important}'),
+    'comment.cssText=': lambda s: setattr(_first(s, _R.COMMENT), 'cssText', '/*\\2a /*/'),
+    'fontface.style.cssText=': lambda s: setattr(_first(s, _R.FONT_FACE_RULE).style, 'cssText', 'font-family:"y z";src:url(a)'),
+})
+EDIT_NAMES = list(EDITS)
+
+
+def _run_edit_history(res, names):
+    guard.pristine()
+    case = {'kind': 'edits', 'history': list(names)}
+    sheet = cssutils.CSSParser(fetcher=lambda u: None).parseString(EDIT_BASE)
+    cssutils.log.raiseExceptions = True
+    accepted = True
+    for n in names:
+        try:
+            EDITS[n](sheet)
+        except Exception:
+            accepted = False  # a refused edit (or one whose target is gone): not a DOM "reached by accepted edits"
+            break
+    if not accepted:
+        res.counters['edit-histories-refused'] += 1
+        return False
+    res.evaluations += 1
+    res.nontrivial += 1
+    res.clauses['C03.edited'] += 1
+    roundtrip(res, sheet, case, 'after-edits|' + names[-1].split('(')[0].split('=')[0] if names else 'after-edits|none')
+    return True
+
+
+def run_edits(res, first, depth):
+    for k in range(0, depth):
+        for tail in itertools.product(EDIT_NAMES, repeat=k):
+            _run_edit_history(res, [first] + list(tail))
+
+
 def plan(tier):
     q = tier == 'quick'
     shards = []
+    for n in EDIT_NAMES:
+        shards.append(('edits', [n, 2 if q else 3]))
     for specs in c02.single_specs():
         shards.append(('c02', specs))
     for specs in c02.sequence_specs(2):
@@ -485,6 +579,9 @@ def run_shard(shard, tier, seed):
             run_content(res, pos, first, n)
     elif kind == 'real':
         run_real(res, os.path.join(guard.REPO, arg))
+    elif kind == 'edits':
+        run_edits(res, arg[0], arg[1])
+        res.sample({'kind': 'edits', 'history': [arg[0]]})
     guard.pristine()
     return res
 
@@ -494,6 +591,8 @@ def replay(case, tier, seed):
     k = case['kind']
     if k == 'content':
         _content_case(res, case['position'], case['content'], case['quote'])
+    elif k == 'edits':
+        _run_edit_history(res, [h for h in case['history']])
     elif k == 'real':
         run_real(res, os.path.join(guard.REPO, case['file']))
     elif k == 'c02':
